@@ -202,7 +202,7 @@ fn mirror_case(r: &Value, factor: f64) -> Value {
 pub fn main(args: &[String]) {
     let mut out: Vec<Value> = read_ndjson(req_arg(args, "--combine")).par_iter().map(combine_case).collect();
     let docs = read_ndjson(req_arg(args, "--docs"));
-    let mirrors: Vec<Value> = docs.par_iter().flat_map_iter(|r| [1.0, 0.5, 3.0].iter().map(|f| mirror_case(r, *f)).collect::<Vec<_>>()).collect();
+    let mirrors: Vec<Value> = docs.par_iter().flat_map_iter(|r| [1.0, 0.5, 3.0, 1.005, 0.999, 1.0 + 1e-9].iter().map(|f| mirror_case(r, *f)).collect::<Vec<_>>()).collect();
     out.extend(mirrors);
     write_ndjson(req_arg(args, "--out"), &out);
     println!("ffi: {} records", out.len());
